@@ -121,14 +121,22 @@ def clone(o):
 # ------------------------------------------------------------------ building
 def build_object(spec):
     kind = spec["kind"]
+    def corners(a, b, flag):
+        if flag and all(float(x).is_integer() for x in list(a) + list(b)):
+            return [int(x) for x in a], [int(x) for x in b]
+        return a, b
     if kind == "region":
         kw = {}
         if spec.get("dims"):
             kw["dims"] = spec["dims"]
         if spec.get("units"):
             kw["units"] = spec["units"]
-        return df.Region(p1=spec["p1"], p2=spec["p2"], **kw)
-    subs = {k: df.Region(p1=a, p2=b) for k, a, b in spec.get("subs", [])}
+        p1, p2 = corners(spec["p1"], spec["p2"], spec.get("intcorners"))
+        return df.Region(p1=p1, p2=p2, **kw)
+    subs = {}
+    for k, a, b in spec.get("subs", []):
+        a, b = corners(a, b, spec["mesh"].get("intcorners"))
+        subs[k] = df.Region(p1=a, p2=b)
     mesh = fieldio.build_mesh(spec["mesh"], subregions=subs or None)
     if kind == "mesh":
         return mesh
@@ -161,7 +169,7 @@ def gen_subs(rng, mspec, count):
 def gen_object_spec(rng, kind, ndim=None, with_subs=True, units=True):
     if kind == "region":
         ms = fieldio.gen_mesh_spec(rng, ndim=ndim)
-        spec = dict(kind="region", p1=ms["p1"], p2=ms["p2"], dims=ms["dims"])
+        spec = dict(kind="region", p1=ms["p1"], p2=ms["p2"], dims=ms["dims"], intcorners=ms.get("intcorners", False))
     else:
         ms = fieldio.gen_mesh_spec(rng, ndim=ndim, max_cells=60, nmax=5, bc_prob=0.4)
         spec = dict(kind=kind, mesh=ms)
